@@ -484,7 +484,10 @@ func TestC06_JWT(t *testing.T) {
 		p := strings.Split(tok, ".")
 		p2 := strings.Split(tok2, ".")
 		hd, cl0, _ := h.DecodeJWT(tok)
-		enc := func(m map[string]interface{}) string { b, _ := jsonMarshal(m); return base64.RawURLEncoding.EncodeToString(b) }
+		enc := func(m map[string]interface{}) string {
+			b, _ := jsonMarshal(m)
+			return base64.RawURLEncoding.EncodeToString(b)
+		}
 		cp := func(m map[string]interface{}) map[string]interface{} {
 			n := map[string]interface{}{}
 			for k, v := range m {
